@@ -279,6 +279,9 @@ func cmdCheck(args []string) int {
 		fmt.Fprintf(os.Stderr, "unknown property %q\n", id)
 		return 2
 	}
+	if id == "C16" {
+		return checkC16(spec, *repo, *tier, seed, *workers)
+	}
 	t0 := time.Now()
 	evPath := filepath.Join(verifDir, "evidence", id+".json")
 	os.MkdirAll(filepath.Join(verifDir, "evidence", "replay"), 0o755)
